@@ -458,6 +458,27 @@ def _walk_tests(f):
             yield n
 
 
+def _enclosing_tests(fnode, target):
+    """the If / While statements whose body or orelse (transitively) contains `target`"""
+    out = []
+
+    def rec(stmts, stack):
+        for st in stmts:
+            if st is target:
+                out.extend(stack)
+                return True
+            if isinstance(st, (ast.If, ast.While)):
+                if rec(st.body, stack + [st]) or rec(st.orelse, stack + [st]):
+                    return True
+            elif isinstance(st, (ast.For, ast.With, ast.Try)):
+                for fld in ('body', 'orelse', 'finalbody'):
+                    if rec(getattr(st, fld, []) or [], stack):
+                        return True
+        return False
+    rec(fnode.body, [])
+    return out
+
+
 @guarded
 def rule_clause(repo, tier):
     from ..expr import parities
@@ -506,6 +527,7 @@ def rule_clause(repo, tier):
     # tol clause
     g = repo.find_method(repo.cls(STEP, 'ReduceToBason'), 'step')
     hit = 0
+    tol_sites = []
     for n in _walk_tests(g):
         t = n.test
         if any(dotted(x) == 'self.tol' for x in ast.walk(t)):
@@ -521,8 +543,20 @@ def rule_clause(repo, tier):
             res.inst({'function': g.fq, 'clause': src(t), 'all_losses_below_tol': ok}, 'tol')
             if not ok:
                 res.add(Finding('C20.CLAUSE', g, 'tol clause `%s` is not `all(loss < tol)`' % src(t), node=n.test))
+            # each stopping cause is tested on EVERY step: the clause is not nested under another loss- / counter-dependent branch
+            outer = _enclosing_tests(g.node, n)
+            dep = [o for o in outer if any((dotted(x) or '') in ('loss', 'self.last', 'self.decreasing', 'self.patience_count', 'self.patience', 'self.steps', 'self.max_steps')
+                                           for x in ast.walk(o.test))]
+            tol_sites.append((n, dep))
     if hit == 0:
         res.add(Finding('C20.CLAUSE', g, 'ReduceToBason.step has no clause on self.tol', construct='tol missing'))
+    else:
+        free = [n for n, dep in tol_sites if not dep]
+        res.inst({'function': g.fq, 'tol clauses': len(tol_sites), 'tested on every step': bool(free)}, 'tol-uncond')
+        if not free:
+            n, dep = tol_sites[0]
+            res.add(Finding('C20.CLAUSE', g, 'the tol clause `%s` is only reached under `%s`: a loss that falls below tol on a step taking the other branch '
+                            'does not stop the loop' % (src(n.test)[:50], src(dep[0].test)[:50]), node=n.test, construct='tol clause nested'))
     # improvement direction of the patience test
     for cls_, mod, prev, cur in (('StopOnPlateau', SCHED, 'self.optimizer.last', 'self.optimizer.loss'), ('ReduceToBason', STEP, 'self.last', 'loss')):
         h = repo.find_method(repo.cls(mod, cls_), 'step')
